@@ -5,7 +5,6 @@
 #pragma once
 #include "vw.h"
 extern uint32_t H_STRSZ, H_NUL;
-extern uint8_t  H_BK0;
 
 #define STR_PRE() (V_O.Data == (CO_DATA)&V_STR && H_NUL < H_STRSZ && V_STR.Start[H_NUL] == 0)
 /* size: result is the position of the first NUL */
